@@ -1363,8 +1363,7 @@ def run_one(
                     {"ops": ops + [op]},
                 )
                 # the model keeps the partial effects of these composite calls exactly like the code: go on comparing
-                # (not when the D85 shape is involved: there the model follows the proposed fix, not the code)
-                failed = failed or op["op"] not in NOT_ATOMIC or "locked-unnamed" in shape
+                failed = failed or op["op"] not in NOT_ATOMIC
             if kind not in allowed_kinds(op, real, shape):
                 for prop in ("C01", "C06"):
                     part.fail(
@@ -1793,6 +1792,16 @@ def sort_scenarios() -> list[list[dict]]:
                 del nv
                 tail = [{"op": "sort", "g": root}] + [{"op": "sort", "g": g} for g in subs] + [{"op": "sort", "g": root, "via": "function"}]
                 out.append(ops + tail)
+        # a node that is already in the root gets a new unnamed output backed by a tensor that refuses renaming:
+        # sort() re-extends the graphs of the nest one after the other and the naming probe of the root fails
+        # (AttributeError) - it must not have re-linked the out-of-order child by then
+        out.append(
+            [val("x"), node([0], "a"), node([1], "b"), graph([1, 0])]
+            + [val(f"pad{i}") for i in range(pad)]
+            + [node([], "owner", attr=[0]), node([], "c"), graph([2, 3]),
+               {"op": "resizeOutputs", "n": 3, "k": 2}]
+            + [{"op": "setConst", "v": 5 + pad, "locked": True}, {"op": "sort", "g": 1}]
+        )
     return out
 
 
@@ -1802,7 +1811,7 @@ def run_sort_scenarios(ctx, prop: str, procs: int = 16) -> str:
     for part in pmap(_sort_worker, jobs, procs):
         split_failures(part, prop)
         ctx.merge(part)
-    return f"{len(hs)} nested-graph sort histories (3 shapes x 2 allocation orders x 6 paddings)"
+    return f"{len(hs)} nested-graph sort histories (3 shapes x 2 allocation orders x 6 paddings + 6 with a naming failure in the root)"
 
 
 _KEEP_ALIVE: list = []
